@@ -128,6 +128,7 @@ def run(P, item):
     ndead = 0
     for o in outs:
         ctx = o.ctx; res['paths'] += 1; res['funcs'] |= ctx.funcs_used; res['builtins'] |= ctx.builtins_used
+        if 'C17' in props: res['claims'] += 1          # obligation: this schedule does not end with every unfinished thread blocked
         if o.status == 'deadlock':
             res['classes'].add('deadlock'); ndead += 1
             if ndead <= 3:
@@ -206,7 +207,14 @@ def conc_witness(ctx, model, item, d):
         if z3.is_true(v): return True
         if z3.is_false(v): return False
         return str(v)
-    return dict(subject=item['subject'], progs=item['progs'], nfill=item.get('nfill', 0), fills=[[ev(x) for x in t] for t in d['fills']], fresh=[[ev(x) for x in v] for k, v in d['fresh']],
+    ttl = d['subj'].rec['intended']['ttl']; sleep_ms = 0
+    if ttl:
+        A = d['subj'].rec['flavour'] == 'A'
+        clk = ctx.sys_vars if A else ctx.now_vars
+        if len(clk) >= 2:
+            span = ev(clk[-1]) - ev(clk[0])
+            if isinstance(span, int) and span >= (ttl if A else ttl * 1000000000): sleep_ms = min(ttl, 5) * 1000 + 150
+    return dict(sleep_ms=sleep_ms, subject=item['subject'], progs=item['progs'], nfill=item.get('nfill', 0), fills=[[ev(x) for x in t] for t in d['fills']], fresh=[[ev(x) for x in v] for k, v in d['fresh']],
                 fresh_keys=[list(k) for k, v in d['fresh']], pred=[(cn, render_key(k, ev), ev(b)) for cn, k, b in d['env']['pred'].memo], sched=d['sched'],
                 locks=[[str(x) for x in e] for e in d['locks']], keys=[render_key(k, ev) for k in d['snap']['keys']], queue=[render_key(k, ev) for k in d['snap']['queue']],
                 keys2=[render_key(k, ev) for k in d['snap'].get('keys2', [])], nlookups=d.get('nlookups'), stats_delta=(ev((d['stats1'][0] + d['stats1'][1]) - (d['stats0'][0] + d['stats0'][1])) if d.get('stats0') is not None and d.get('stats1') is not None else None), probe=[ev(x) for x in d['probe'][0]['args']] if d['probe'] else None)
